@@ -630,6 +630,33 @@ fn gen_c10(seed: u64) -> Plan {
         }
     }
     b.plan.flags = vec!["byz".into(), "no_ban_reconnect_delay".into()];
+    if b.rng.chance(1, 3) {
+        // pending transactions, relay opens / closes, and protocol-open events that race with
+        // the end of their session
+        let scripts: Vec<(ScriptRef, u64)> = (0..b.plan.chain.n_locks).map(|i| (ScriptRef::Lock(i), 0)).collect();
+        add(&mut b.plan, 1, Action::User(UserOp::SetScripts { cmd: SetCmd::All, scripts }));
+        b.plan.chain.max_txs = b.plan.chain.max_txs.max(1);
+        for _ in 0..b.rng.range(2, 10) {
+            let at = b.rng.range(8_000, until);
+            let spec = TxSpec { seed: b.rng.next_u64(), source: 0, mutation: if b.rng.chance(2, 3) { 0 } else { b.rng.range(1, 14) as u8 } };
+            add(&mut b.plan, at, Action::User(UserOp::SendTransaction(spec)));
+        }
+        let np = b.plan.peers.len();
+        for _ in 0..b.rng.range(2, 8) {
+            let at = b.rng.range(8_000, until);
+            let peer = b.rng.usize_below(np);
+            match b.rng.below(3) {
+                0 => add(&mut b.plan, at, Action::RelayOpen { peer }),
+                1 => add(&mut b.plan, at, Action::RelayGetTxs { peer }),
+                _ => {
+                    add(&mut b.plan, at, Action::Disconnect { peer });
+                    add(&mut b.plan, at + b.rng.range(100, 5_000), Action::Connect { peer });
+                }
+            }
+        }
+        b.plan.flags.push("late_relay_open".into());
+        b.plan.flags.push("relay".into());
+    }
     finish(b, until, 60_000)
 }
 
@@ -1058,5 +1085,8 @@ fn gen_c18(seed: u64) -> Plan {
         }
     }
     b.plan.flags = vec!["honest".into(), "relay".into()];
+    if b.rng.chance(1, 2) {
+        b.plan.flags.push("late_relay_open".into());
+    }
     finish(b, until, 100_000)
 }
